@@ -347,9 +347,9 @@ def self_compose(pc, e):
     sub = []
     for n, v in vs.items():
         if z3.is_bool(v):
-            sub.append((v, z3.Bool(n + "'")))
+            sub.append((v, z3.Bool(n + "__2")))
         else:
-            sub.append((v, z3.BitVec(n + "'", v.size())))
+            sub.append((v, z3.BitVec(n + "__2", v.size())))
     e2 = z3.substitute(e, *sub)
     s = z3.Solver()
     s.set("timeout", 60000)
@@ -358,6 +358,8 @@ def self_compose(pc, e):
         s.add(z3.substitute(c, *sub))
     s.add(e != e2)
     r = s.check()
+    from sym import xsolve
+    xsolve.cross(s, "self-composition", str(r))
     if r == z3.sat:
         m = s.model()
         w = ({n: str(m.eval(v, model_completion=True)) for n, v in list(vs.items())[:60]}, {n: str(m.eval(v2, model_completion=True)) for (v, v2), n in zip(sub[:60], list(vs)[:60])})
